@@ -46,7 +46,7 @@ class Ctx:
 
 def shipped_bodies(prog):
     """bodies that ship (not inside #[cfg(test)] modules)"""
-    return [b for b in prog.bodies.values() if not b.test]
+    return [b for b in prog.bodies.values() if not b.test and not getattr(b, "spliced", False)]
 
 
 def where(body, bb):
@@ -385,6 +385,81 @@ def phi_mentions(body, o, pred, depth=2, _seen=None):
             d = body.origin_call(bi) if si == "T" else body.origin_rvalue(body.blocks[bi]["stmts"][si]["rv"])
             found += phi_mentions(body, d, pred, depth - 1, seen)
     return found
+
+
+def returns_closed_error(body, o):
+    """the returned error is Error::Closed — literally, or through the `?` of an (inlined) helper
+    whose only error is Closed"""
+    if o is None:
+        return False
+    if "Closed" in origin_str(o):
+        return True
+    # the residual of a `?`: look at the operand itself (o[2] of a try node), not at its success view
+    raws = [x[2] for x in origin_mentions(o, lambda x: x[0] == "try" and len(x) > 2)]
+    found = []
+    for cand in [o] + raws:
+        found += phi_mentions(body, cand, lambda x: x[0] == "agg" and x[1] == "adt" and x[2] in ("std::result::Result", "core::result::Result") and x[3] == "Err", depth=3)
+    return bool(found) and all("Closed" in origin_str(x) for x in found)
+
+
+def bool_switch_comparison(body, bb):
+    """For a bool switch: (comparison origin, negated) such that `operand != negated` implies the
+    comparison holds. Sees through `!`, through `let ok = a <= b; if ok`, and through a flag that is
+    the comparison on one path and the constant `false` on all others
+    (`x.map_or(false, |v| v <= limit)` written out, a `match` with a guard assigned to a flag)."""
+    info = body.switch_info(bb)
+    if not info or info["kind"] != "bool":
+        return None, False
+    o = peel_var(info["on"])
+    neg = False
+    while o[0] == "un" and o[1] == "Not":
+        o, neg = peel_var(o[2]), not neg
+    if o[0] == "bin" and o[1] in ("Le", "Lt", "Ge", "Gt", "Eq", "Ne"):
+        return o, neg
+    if o[0] == "var" and o[3] is None:
+        cmps, consts, other = [], [], 0
+        ds = body.defs.get(o[1], [])
+        if body.rec.get("transformed"):
+            ds = body._dedupe_defs(o[1], ds)
+        for bi, si, whole in ds:
+            if not whole or bi not in body.live_blocks():
+                continue
+            d = body.origin_call(bi) if si == "T" else body.origin_rvalue(body.blocks[bi]["stmts"][si]["rv"])
+            d = peel_var(d)
+            if d[0] == "bin" and d[1] in ("Le", "Lt", "Ge", "Gt", "Eq", "Ne"):
+                cmps.append(d)
+            elif d[0] == "const" and const_int(d) in (0, 1):
+                consts.append(const_int(d))
+            else:
+                other += 1
+        if len(cmps) == 1 and other == 0 and all(c == 0 for c in consts):
+            return cmps[0], neg
+    return None, False
+
+
+def array_writer_region(prog):
+    """where an Array frame is written: (coroutine body, entry block, blocks to stop at). Normally
+    Connection::write_array; when that helper was inlined into its only caller, the Array arm of
+    write_frame's match on the frame"""
+    roots = [r for r in prog.families if strip_generics(r) == "net::connection::Connection::write_array"]
+    if roots:
+        ab = [x for x in prog.families[roots[0]] if x.coroutine]
+        if ab:
+            return ab[0], 0, set()
+    for x in prog.family("net::connection::Connection::write_frame"):
+        if not x.coroutine:
+            continue
+        for bb in sorted(x.live_blocks()):
+            info = x.switch_info(bb)
+            if info and info["kind"] == "variant" and "Array" in sum(info["arms"].values(), []) and (access_path(info["on"]) or "").endswith("frame"):
+                arr = [e.dst for e in x.succ[bb] if info["arms"].get(e.dst) == ["Array"]]
+                oth = [e.dst for e in x.succ[bb] if e.dst not in arr]
+                if arr:
+                    blocked = lambda e: e.kind in ("unwind", "ydrop")
+                    mine = reach(x, arr, blocked_edges=blocked)
+                    others = reach(x, oth, blocked_edges=blocked) if oth else set()
+                    return x, arr[0], others
+    return None, None, None
 
 
 def resolved_access_path(prog, body, o, depth=0):
